@@ -56,7 +56,7 @@ def cases(tier):
     for K in range(2, kmax + 1):
         out.append({"name": f"unbalanced/K{K}", "kind": "unbalanced", "K": K})
         out.append({"name": f"two-atoms/K{K}", "kind": "twoatoms", "K": K})
-    for k in ("bracket", "bracket2", "symbol", "distname", "translen", "negweight", "aftermix", "percent", "nongen", "prefix"):
+    for k in ("bracket", "bracket2", "symbol", "distname", "translen", "negweight", "neglist", "aftermix", "percent", "nongen", "prefix"):
         out.append({"name": k, "kind": k})
     lmax = 4 if tier == "quick" else 5
     for cls in ("System", "Molecule", "Stochastic", "SmilesToken", "BondDescriptor", "Mixture"):
@@ -295,6 +295,30 @@ def run_case(case, g, tier, res):
             return expect_raise(c, lambda: mol.generate(rng=rng), "negative weight: generate refuses", det)
 
         explore_case(res, h, tier, on_path=on_path)
+    elif kind == "neglist":
+        # one NEGATIVE entry in a transition list whose sum is not negative: the descriptor counts as generable, the draw from the
+        # list must refuse the negative probability (an error, never a molecule made from a clipped or re-normalised list)
+        def h(c):
+            which = c.fresh_int("which", 0, 1).__index__()
+            x = c.fresh_real("x", 1e-3, 1e3)
+            y = c.fresh_real("y", 1e-3, 1e3)
+            c.assume(y >= x)
+            vals = [-x, y] if which == 0 else [y, -x]
+            text = SymStr.of("N{[<][<|", Num(vals[0], "float"), " ", Num(vals[1], "float"), "|]CC[>][>]}|gauss(50,5)|O")  # the list sits on the growing end
+            det = _det("negative entry of a transition list: generate refuses", lambda mv, c: text_of(c, mv, text), {"sub": "neglist"})
+            try:
+                mol = g.Molecule(text)
+            except Exception as e:
+                core.reraise_if_harness(e)
+                c.prove(True, "negative entry of a transition list: generate refuses")
+                return "rejected at parse"
+            rng = SymRng()
+            from symx import gen
+            gen.install_observers(g, gen.Observer())
+            gen.DRAW_FN[0] = gen.scripted_draw([45.0])  # two units are needed: the second one is drawn from the list
+            return expect_raise(c, lambda: mol.generate(rng=rng), "negative entry of a transition list: generate refuses", det)
+
+        explore_case(res, h, tier, on_path=on_path)
     elif kind == "aftermix":
         def h(c):
             L = c.fresh_int("L", 1, 2).__index__()
@@ -505,6 +529,15 @@ def replay(rp, gb):
                 m = gb.Mixture(".|5|")
                 m.relative_mass = float(t.strip(".|%"))
             ok = raises(f)
+    elif label.startswith("negative entry of a transition list"):
+        from symx import gen as _gen
+
+        _gen.restore_draws(gb)
+
+        def one(seed):
+            m = gb.Molecule(t.replace("gauss(50,5)", "gauss(50,0.001)"))  # two units in every draw
+            m.generate(rng=np.random.default_rng(seed))
+        ok = all(raises(lambda s_=s_: one(s_)) for s_ in range(6))
     elif label in ("negative weight is not generable", "negative weight: generate refuses"):
         def f():
             m = gb.Molecule(t)
